@@ -1,4 +1,5 @@
 """C15 — account locks are exclusive and are always eventually granted."""
+import collections
 from vlib.common import *
 
 META = {
@@ -353,3 +354,44 @@ def run(ctx):
                                                     "the unrepaired code reports RemoveValue (no locker mutex) against recheck"}
                 if races:
                     ctx.notes.append("race detector reported %d data races: %s" % (races, rr[2][:1500]))
+
+
+def contract_for(ctx, prop, n):
+    """The locker contract as another property's assumption (C02: the engine runs use a scheduler-native locker that implements this
+    contract; here the REAL DefaultLocker is held to it): generated op sequences (or the replay's) through the real locker, the oracle of
+    this file on what it did, reported under `prop`.  Returns the number of sequences evaluated."""
+    if not (ctx.ensure_driver() and ctx.ensure_harness()):
+        return 0
+    if ctx.replay_file:
+        rp = json.load(open(ctx.replay_file))["replay"]
+        base = rp["inputs"] if "inputs" in rp else [rp["input"]]
+        inputs = [dict(b, id=k * REPEAT_REPLAY + j) for k, b in enumerate(base) for j in range(REPEAT_REPLAY)]
+    else:
+        gen = ctx.path("lock.gen.jsonl")
+        p = run_harness(["lock", "gen", "-seed", ctx.seed, "-n", n, "-tier", ctx.tier, "-out", gen])
+        if p.returncode != 0:
+            ctx.l2_broken.append({"stream": "lock-gen", "detail": (p.stdout + p.stderr)[-2000:]})
+            return 0
+        inputs = []
+        for c in corpus_inputs("lock"):
+            for j in range(REPEAT_CORPUS):
+                inputs.append(dict(c, id=c["id"] * REPEAT_CORPUS - j))
+        inputs += read_jsonl(gen)
+    r = run_lock(ctx, inputs, "contract")
+    if r is None:
+        return 0
+    impl, _, _ = r
+    classes = collections.Counter()
+    for inp in inputs:
+        out = impl.get(inp["id"])
+        if out is None:
+            continue
+        for sig, what in oracle(inp, out):
+            classes[sig.get("class")] += 1
+            ctx.violation(dict(sig, property=prop, component="DefaultLocker"), "the account locker breaks its contract: " + what,
+                          {"area": "lock", "input": {k: v for k, v in inp.items() if k not in ("id", "corpus")}, "observed": out,
+                           "note": "the select's choice is Go's own: --replay runs the input %d times" % REPEAT_REPLAY})
+    ctx.cov["locker_contract"] = {"sequences": len(inputs), "violations_by_class": dict(classes),
+                                  "rule": "op sequences (arrive / release / cancel, coincidences of grant and cancellation forced) through the real "
+                                          "command.DefaultLocker; exclusion, no missed wake-up, cancellation leaves nothing behind"}
+    return len(inputs)
